@@ -348,6 +348,9 @@ pub open spec fn json_object_text(o: JsonOutputOptions, e: Seq<(String, JsonValu
 impl JsonOutputOptions {
     pub closed spec fn utf8(&self) -> bool { self.utf8_strings }
 }
+// the provided methods of trait Print (print, print_something, print_number) are verified once, on the trait: an impl must not override them
+//@@ impl-methods jsonprint = src/output_style.rs :: impl<W: Write> Print<W> for JsonOutputOptions :: print_nothing print_null print_true print_false print_f64 print_u64 print_i64 print_string print_object print_array
+//@@ impl-methods textprint = src/output_style.rs :: impl<W: Write> Print<W> for TextPrinter :: print_nothing print_null print_true print_false print_f64 print_u64 print_i64 print_string print_object print_array
 impl<W: Write> Print<W> for JsonOutputOptions {
     open spec fn t_nothing(&self) -> Seq<char> { Seq::empty() }
     open spec fn t_null(&self) -> Seq<char> { "null"@ }
